@@ -3,7 +3,7 @@ package main
 import (
 	"fmt"
 	"go/ast"
-	"go/build/constraint"
+	"go/build"
 	"go/importer"
 	"go/parser"
 	"go/token"
@@ -53,23 +53,76 @@ func (c *chainImporter) Import(path string) (*types.Package, error) {
 	return c.std.Import(path)
 }
 
-func fileIncluded(f *ast.File) bool {
-	for _, cg := range f.Comments {
-		if cg.Pos() > f.Package {
-			break
-		}
-		for _, c := range cg.List {
-			if constraint.IsGoBuild(c.Text) {
-				e, err := constraint.Parse(c.Text)
-				if err == nil {
-					return e.Eval(func(tag string) bool {
-						return tag == "verif" || tag == "linux" || tag == "amd64" || tag == "gc" || strings.HasPrefix(tag, "go1.")
-					})
-				}
-			}
+// buildConfig is one build configuration under which the module's file set is determined.
+type buildConfig struct {
+	Name   string
+	GOOS   string
+	GOARCH string
+	Tags   []string
+}
+
+var defaultCfg = buildConfig{Name: "linux/amd64", GOOS: "linux", GOARCH: "amd64"}
+
+// altConfigs are the other configurations C17 ("every program, every configuration") looks at when the module's
+// file set depends on the configuration.
+var altConfigs = []buildConfig{
+	{Name: "linux/amd64 -tags purego", GOOS: "linux", GOARCH: "amd64", Tags: []string{"purego"}},
+	{Name: "linux/386", GOOS: "linux", GOARCH: "386"},
+	{Name: "linux/arm64", GOOS: "linux", GOARCH: "arm64"},
+	{Name: "windows/amd64", GOOS: "windows", GOARCH: "amd64"},
+	{Name: "darwin/arm64", GOOS: "darwin", GOARCH: "arm64"},
+	{Name: "js/wasm", GOOS: "js", GOARCH: "wasm"},
+}
+
+var curCfg = defaultCfg
+
+func (c buildConfig) context() *build.Context {
+	ctx := build.Default
+	ctx.GOOS, ctx.GOARCH = c.GOOS, c.GOARCH
+	ctx.CgoEnabled = false
+	ctx.BuildTags = append([]string{"verif"}, c.Tags...)
+	return &ctx
+}
+
+// fileIncluded applies the go command's rules (//go:build lines and _GOOS/_GOARCH file-name suffixes) for curCfg.
+func fileIncluded(dir, name string) bool {
+	ok, err := curCfg.context().MatchFile(dir, name)
+	return err == nil && ok
+}
+
+// alwaysCompiled: the file is part of the package under the default and every alternative configuration.
+func alwaysCompiled(path string) bool {
+	dir, name := filepath.Dir(path), filepath.Base(path)
+	for _, cfg := range append([]buildConfig{defaultCfg}, altConfigs...) {
+		ctx := cfg.context()
+		ctx.BuildTags = cfg.Tags
+		if ok, err := ctx.MatchFile(dir, name); err != nil || !ok {
+			return false
 		}
 	}
 	return true
+}
+
+// fileSet lists the non-test Go files of the module's three packages that are compiled under cfg (contract files
+// and lemma programs excluded).
+func fileSet(root string, cfg buildConfig) []string {
+	var out []string
+	ctx := cfg.context()
+	ctx.BuildTags = cfg.Tags
+	for _, d := range []string{".", "internal/field", "internal/scalar"} {
+		ents, _ := os.ReadDir(filepath.Join(root, d))
+		for _, e := range ents {
+			n := e.Name()
+			if e.IsDir() || !strings.HasSuffix(n, ".go") || strings.HasSuffix(n, "_test.go") {
+				continue
+			}
+			if ok, err := ctx.MatchFile(filepath.Join(root, d), n); err == nil && ok {
+				out = append(out, filepath.Join(d, n))
+			}
+		}
+	}
+	sort.Strings(out)
+	return out
 }
 
 func LoadProgram(root string) (*Program, error) {
@@ -97,12 +150,12 @@ func LoadProgram(root string) (*Program, error) {
 		}
 		sort.Strings(names)
 		for _, n := range names {
+			if !fileIncluded(dir, n) {
+				continue
+			}
 			f, err := parser.ParseFile(prog.Fset, filepath.Join(dir, n), nil, parser.ParseComments)
 			if err != nil {
 				return nil, err
-			}
-			if !fileIncluded(f) {
-				continue
 			}
 			p.Files = append(p.Files, f)
 			for _, cg := range f.Comments {
